@@ -36,10 +36,12 @@ impl TraitCodegen<'_> {
         fn_input_mode: &FnInputMode<'_>,
     ) -> syn::Result<TokenStream> {
         let span = trait_ident.span();
+        // The mock macros resolve the `self` they write with the hygiene of their attribute (and of the
+        // method's `fn` token): the attributes are spanned like the invocation, as a hand-written
+        // attribute next to `#[entrait]` would be - not like the option that asks for them, nor like the
+        // trait's name, which may both have been passed into a `macro_rules!` macro that holds the rest.
+        let mock_span = proc_macro2::Span::call_site();
 
-        // The mock attributes are spanned like the trait's name, not like the option that asks for them:
-        // the mock macros resolve `self` with the hygiene of their attribute, and the option may have been
-        // passed into a `macro_rules!` macro whose body holds the item.
         let opt_unimock_attr = match self.opts.default_option(self.opts.unimock, false) {
             SpanOpt(true, _) => Some(attributes::ExportGatedAttr {
                 params: attributes::UnimockAttrParams {
@@ -49,7 +51,7 @@ impl TraitCodegen<'_> {
                     crate_idents: self.crate_idents,
                     trait_fns,
                     fn_input_mode,
-                    span,
+                    span: mock_span,
                 },
                 opts: self.opts,
             }),
@@ -67,7 +69,7 @@ impl TraitCodegen<'_> {
 
         let opt_mockall_automock_attr = match self.opts.default_option(self.opts.mockall, false) {
             SpanOpt(true, _) => Some(attributes::ExportGatedAttr {
-                params: attributes::MockallAutomockParams { span },
+                params: attributes::MockallAutomockParams { span: mock_span },
                 opts: self.opts,
             }),
             _ => None,
